@@ -88,32 +88,47 @@ class Roles:
                 out[kw.arg] = kw.value
         return out
 
+    COPIERS = ('set', 'list', 'tuple', 'frozenset', 'sorted')
+
+    def _carries(self, e, names):
+        """the expression is (built from) a role value; results of calls do not carry the role, except those of
+        the collection copiers set()/list()/tuple()/frozenset()/sorted() (same elements)"""
+        if isinstance(e, ast.Call):
+            if isinstance(e.func, ast.Name) and e.func.id in self.COPIERS and len(e.args) == 1 and not e.keywords:
+                return self._carries(e.args[0], names)
+            return False
+        if isinstance(e, ast.Name):
+            return e.id in names
+        return any(self._carries(c, names) for c in ast.iter_child_nodes(e))
+
     def local_taint(self, fd, role):
-        """names of fd carrying the role: role parameters plus locals copied from them"""
+        """names of fd carrying the role: role parameters plus locals copied from / joined with them"""
+        key = (fd.fq, role, len(self.roles[role]))
+        cache = self.__dict__.setdefault('_taint_cache', {})
+        if key in cache:
+            return cache[key]
         names = {p for (fq, p) in self.roles[role] if fq == fd.fq}
         changed = True
         while changed:
             changed = False
             for n in ast.walk(fd.node):
-                if isinstance(n, ast.Assign) and len(n.targets) == 1 and isinstance(n.targets[0], ast.Name) \
-                        and n.targets[0].id not in names:
-                    if not any(isinstance(x, ast.Call) for x in ast.walk(n.value)) and \
-                            any(isinstance(x, ast.Name) and x.id in names for x in ast.walk(n.value)):
-                        names.add(n.targets[0].id)
-                        changed = True
+                tgt = None
+                if isinstance(n, ast.Assign) and len(n.targets) == 1 and isinstance(n.targets[0], ast.Name):
+                    tgt, val = n.targets[0].id, n.value
+                elif isinstance(n, ast.AugAssign) and isinstance(n.target, ast.Name) and isinstance(n.op, (ast.Add, ast.BitOr)):
+                    tgt, val = n.target.id, n.value
+                elif isinstance(n, ast.Call) and isinstance(n.func, ast.Attribute) and n.func.attr in ('update', 'extend') \
+                        and isinstance(n.func.value, ast.Name) and len(n.args) == 1:
+                    tgt, val = n.func.value.id, n.args[0]
+                if tgt is not None and tgt not in names and self._carries(val, names):
+                    names.add(tgt)
+                    changed = True
+        cache[key] = names
         return names
 
     def mentions(self, fd, expr, role):
-        """the expression is (built from) a role value; results of nested calls do not carry the role"""
-        names = self.local_taint(fd, role)
-
-        def walk(e):
-            if isinstance(e, ast.Call):
-                return False
-            if isinstance(e, ast.Name):
-                return e.id in names
-            return any(walk(c) for c in ast.iter_child_nodes(e))
-        return walk(expr)
+        """the expression is (built from) a role value"""
+        return self._carries(expr, self.local_taint(fd, role))
 
     def has_role(self, fd, role):
         return any(fq == fd.fq for (fq, p) in self.roles[role])
@@ -496,24 +511,50 @@ def r11_b(ctx):
     R = roles(ctx)
     rr = RuleResult('R11.b', 'built-in and user-supplied skip names form one set; the decision to read raw is a single '
                     'membership test of the environment name in that set, the other branch parses normally', floor=2)
-    # references to SKIP_ENV_NAMES outside its definition
+    # references to the built-in names (tokens.SKIP_ENV_NAMES or a module-level constant derived from it)
+    builtin_names = {'SKIP_ENV_NAMES'}
+    for _ in range(3):
+        for m in repo.modules.values():
+            for name, vals in m.assigns.items():
+                if name not in builtin_names and any(isinstance(x, ast.Name) and x.id in builtin_names
+                                                     for v in vals for x in ast.walk(v)):
+                    builtin_names.add(name)
     refs = []
     for m in repo.modules.values():
         for fd in list(m.functions.values()) + [f for c in m.classes.values() for fs in c.methods.values() for f in fs]:
             for n in ast.walk(fd.node):
-                if isinstance(n, ast.Name) and n.id == 'SKIP_ENV_NAMES':
+                if isinstance(n, ast.Name) and n.id in builtin_names and isinstance(n.ctx, ast.Load):
                     refs.append((fd, n))
     if not refs:
         raise AnalysisError('SKIP_ENV_NAMES is no longer referenced by the parser')
+    COPIERS = ('set', 'list', 'tuple', 'frozenset', 'sorted')
     for fd, n in refs:
         p = getattr(n, '_parent', None)
-        ok = isinstance(p, ast.BinOp) and isinstance(p.op, ast.Add) and R.mentions(fd, p, 'skip')
+        fresh = False
+        while isinstance(p, ast.Call) and isinstance(p.func, ast.Name) and p.func.id in COPIERS and len(p.args) == 1:
+            fresh = True
+            p = getattr(p, '_parent', None)
+        while isinstance(p, ast.BinOp) and isinstance(p.op, (ast.Add, ast.BitOr)) and not R.mentions(fd, p, 'skip') \
+                and isinstance(getattr(p, '_parent', None), ast.BinOp):
+            p = p._parent
+        ok = isinstance(p, ast.BinOp) and isinstance(p.op, (ast.Add, ast.BitOr)) and R.mentions(fd, p, 'skip')
+        if not ok and fresh and isinstance(p, ast.Assign) and len(p.targets) == 1 and isinstance(p.targets[0], ast.Name):
+            # v = set(BUILTIN) ; v.update(user) / v |= user / v += user / v.extend(user)
+            v = p.targets[0].id
+            for x in ast.walk(fd.node):
+                if isinstance(x, ast.Call) and isinstance(x.func, ast.Attribute) and x.func.attr in ('update', 'extend') \
+                        and isinstance(x.func.value, ast.Name) and x.func.value.id == v and x.args and R.mentions(fd, x.args[0], 'skip'):
+                    ok = True
+                if isinstance(x, ast.AugAssign) and isinstance(x.target, ast.Name) and x.target.id == v \
+                        and isinstance(x.op, (ast.Add, ast.BitOr)) and R.mentions(fd, x.value, 'skip'):
+                    ok = True
         # and the joined value is passed as the skip option
-        rr.ob(ok, {'reference': '%s: %s' % (fd.qual, norm(p)[:60] if p is not None else 'SKIP_ENV_NAMES')})
+        rr.ob(ok, {'reference': '%s: %s' % (fd.qual, norm(p)[:60] if p is not None else n.id)})
         if not ok:
             rr.fail(Finding('R11.b', fd.module.name, fd.qual, p if isinstance(p, ast.AST) else n,
-                            'the built-in skip names are used without being joined with the caller-supplied names: a '
-                            'user-supplied name would not behave like the built-in ones', line=n.lineno))
+                            'the built-in skip names are not joined with the caller-supplied names into a fresh '
+                            'collection: a user-supplied name would not behave like the built-in ones (or would stay '
+                            'registered after the call)', line=n.lineno))
     # call sites of the raw reader
     cg = callgraph.graph(ctx)
     raw = repo.need_func('reader.read_skip_env')
